@@ -11,6 +11,7 @@ import (
 
 func init() {
 	generators["fw"] = genFW       // Writer sessions: option matrix x inputs x delivery (C02 C09 C14)
+	generators["fwck"] = genFWck     // checksum-bearing frames (C13): header with content size, block and content checksums
 	generators["fwlife"] = genFWLife // Writer lifecycle / misuse sequences (C17)
 	generators["fwfail"] = genFWFail // failing sinks (C15)
 	generators["fr"] = genFR       // Reader sessions over valid frames (C02 C16 C17)
@@ -108,10 +109,69 @@ func genFW(w *bufio.Writer, thorough bool, r *Rng) {
 		ops = append(ops, "c")
 		fmt.Fprintf(w, "W -1 %s\n", strings.Join(ops, " "))
 	}
+	// blocks larger than the 64 KiB window: content that repeats with period exactly 65536 (one beyond
+	// the largest offset) and early noise repeated at distance 65535 / 65536 / 65537 after a long run
+	edge := 4
+	if thorough {
+		edge = 40
+	}
+	for i := 0; i < edge; i++ {
+		chunk := r.Bytes(65536)
+		var c1 []byte
+		for k := 0; k < 2+i%3; k++ {
+			c1 = append(c1, chunk...)
+		}
+		c1 = append(c1, r.Bytes(r.Intn(50))...)
+		dist := []int{65536, 65535, 65537}[i%3]
+		c2 := r.Bytes(dist + 2000)
+		for k := range c2 {
+			if c2[k] == 0 {
+				c2[k] = 1
+			}
+		}
+		from := 16 + i%12 + r.Intn(40)
+		for k := 128 + r.Intn(64); k < from+dist; k++ {
+			c2[k] = 0
+		}
+		copy(c2[from+dist:], c2[from:from+20+r.Intn(80)])
+		for _, c := range [][]byte{c1, c2} {
+			o := wopts{bs: r.Pick([]int{262144, 1048576, 4194304}), bc: r.Intn(2), cc: 1, lvl: r.Pick([]int{0, 0, 512, 2048}), conc: r.Pick([]int{1, 1, 4})}
+			fmt.Fprintf(w, "W -1 A:%s w:%s c\n", o.String(), saveBlob("edge", c))
+		}
+	}
 	// crafted: block / content whose XXH32 is 0 (27 11 4b 23), with block checksums
 	fmt.Fprintf(w, "W -1 A:bs=65536,bc=1,cc=1,sz=0,lvl=0,conc=1,leg=0 w:x27114b23 c\n")
 	fmt.Fprintf(w, "W -1 A:bs=65536,bc=1,cc=0,sz=4,lvl=512,conc=2,leg=0 w:x27114b23 f w:x27114b23 c\n")
 	fmt.Fprintf(w, "W -1 A:sz=5 A:bc=1 w:x68656c6c6f c\n")
+}
+
+func genFWck(w *bufio.Writer, thorough bool, r *Rng) {
+	n := 60
+	if thorough {
+		n = 600
+	}
+	for i := 0; i < n; i++ {
+		sz := r.Pick([]int{0, 1, 15, 16, 17, 100, 65536, 70000, 140000})
+		o := wopts{bs: r.Pick([]int{65536, 65536, 262144}), bc: 1, cc: 1, sz: sz, lvl: r.Pick([]int{0, 0, 512}), conc: r.Pick([]int{1, 1, 2})}
+		if r.Intn(5) == 0 {
+			o.sz = 1 + r.Intn(1<<30) // any declared size goes into the header checksum
+		}
+		ops := []string{"A:" + o.String()}
+		if r.Bool() {
+			ops = append(ops, "w:"+dataTok(r, sz, o.lvl))
+		} else {
+			ops = append(ops, splitWrites(r, sz, o.lvl)...)
+		}
+		ops = append(ops, "c")
+		fmt.Fprintf(w, "W -1 %s\n", strings.Join(ops, " "))
+	}
+	// a Write / Flush boundary right after a stripe that zeroes the four lanes of the content checksum
+	for i := 0; i < 12; i++ {
+		pre := r.Bytes(16 * r.Intn(4))
+		in := append(append([]byte{}, pre...), zeroStripe(pre)...)
+		rest := r.Bytes(1 + r.Intn(50))
+		fmt.Fprintf(w, "W -1 A:bs=65536,bc=%d,cc=1,sz=0,lvl=0,conc=%d,leg=0 w:x%s f w:x%s c\n", r.Intn(2), r.Pick([]int{1, 2}), hx(in), hx(rest))
+	}
 }
 
 func genFWLife(w *bufio.Writer, thorough bool, r *Rng) {
@@ -140,6 +200,32 @@ func genFWLife(w *bufio.Writer, thorough bool, r *Rng) {
 		default:
 			return "A:conc=" + fmt.Sprint(r.Pick([]int{1, 2, 4}))
 		}
+	}
+	// a Writer dropped in the middle of a frame (or after a sink failure) and reused with another block size
+	dn := 24
+	if thorough {
+		dn = 200
+	}
+	for i := 0; i < dn; i++ {
+		firsts := []string{"bs=4194304", "bs=1048576", "bs=262144", "leg=1", "bs=65536"}
+		seconds := []string{"bs=65536", "bs=65536", "bs=262144", "leg=0,bs=65536", "bs=1048576"}
+		first, second := firsts[r.Intn(len(firsts))], seconds[r.Intn(len(seconds))]
+		conc := r.Pick([]int{1, 1, 2, 4})
+		fa := -1
+		if r.Intn(3) == 0 {
+			fa = r.Intn(3)
+		}
+		mid := []string{"", "f", "c", "f c"}[r.Intn(4)]
+		ops := []string{fmt.Sprintf("A:%s,conc=%d", first, conc), "w:" + dataTok(r, r.Pick([]int{1, 100, 70000}), 0)}
+		if mid != "" {
+			ops = append(ops, strings.Fields(mid)...)
+		}
+		ops = append(ops, "R:-1", "A:"+second, "w:"+dataTok(r, r.Pick([]int{70000, 140000, 300000}), 0))
+		if r.Bool() {
+			ops = append(ops, "f", "w:"+dataTok(r, 66000, 0))
+		}
+		ops = append(ops, "c")
+		fmt.Fprintf(w, "W %d %s\n", fa, strings.Join(ops, " "))
 	}
 	n := 1500
 	if thorough {
@@ -298,6 +384,14 @@ func someFrames(r *Rng, n int, thorough bool) []builtFrame {
 					copy(content[p:p+30], content[p-65535:p-65535+30])
 				}
 			}
+			// ... and one whose source is the very first byte of the frame, in a later block
+			if fo.dep && sz > fo.blockSize+100 && fo.blockSize < 65000 {
+				p := fo.blockSize*(1+r.Intn(3)) + r.Intn(fo.blockSize)
+				if p+40 < sz && p < 65535 {
+					copy(content[0:30], r.Bytes(30))
+					copy(content[p:p+30], content[0:30])
+				}
+			}
 			bf.frame, bf.fields = buildFrame(content, fo, r)
 			bf.bs = max
 			bf.content = saveBlob("content", content)
@@ -328,6 +422,68 @@ func genFR(w *bufio.Writer, thorough bool, r *Rng) {
 		two := saveBlob("two", append(append([]byte{}, a.frame...), b.frame...))
 		fmt.Fprintf(w, "R 1 %s 0 -1 0 r:%d r:10 r:10 s R:%s A:conc=%d r:%d r:7 wt:-1\n", two, a.clen+100, b.ref, r.Pick([]int{1, 2}), b.clen+100)
 		fmt.Fprintf(w, "R %d %s 0 -1 0 r:3 A:conc=2 wt:-1 r:9 R:%s wt:-1 r:9 s\n", r.Pick([]int{1, 2}), a.ref, b.ref)
+	}
+	k := 6
+	if thorough {
+		k = 60
+	}
+	reuseLines(w, r, k)
+}
+
+// magicWords: first words at and around the three magics: every one-bit change of each of them,
+// words whose set bits include all those of a magic (what a mask test would accept), and random words.
+func magicWords(r *Rng) []uint32 {
+	var ws []uint32
+	bases := []uint32{0x184D2204, 0x184C2102, 0x184D2A50, 0x184D2A5F, 0x184D2A57}
+	for _, b := range bases {
+		for bit := uint(0); bit < 32; bit++ {
+			ws = append(ws, b^(1<<bit))
+		}
+		for k := 0; k < 12; k++ {
+			ws = append(ws, b|uint32(r.U64()), b&uint32(r.U64()))
+		}
+		ws = append(ws, b<<8|b>>24, b>>8|b<<24, b<<24|b>>24|(b&0xff00)<<8|(b>>8)&0xff00)
+	}
+	for x := uint32(0x184D2A40); x <= 0x184D2A70; x++ {
+		ws = append(ws, x)
+	}
+	ws = append(ws, 0, 1, 0xFFFFFFFF, 0x184D2A50|0x20, 0x1C4D2A50, 0x184D2A70, 0x184D2204, 0x184C2102)
+	for k := 0; k < 40; k++ {
+		ws = append(ws, uint32(r.U64()))
+	}
+	return ws
+}
+
+// reuseLines: a Reader taken through Reset in every state a previous stream can leave it in:
+// a partly consumed block (small and large block sizes), a WriteTo that failed on its destination
+// while blocks were in flight, a stream read to its end; the next stream may be a legacy frame with
+// the Linux-kernel trailer (total uncompressed size), whose recognition depends on a running count.
+func reuseLines(w *bufio.Writer, r *Rng, k int) {
+	mk := func(sz, bs, leg int) (string, int) {
+		content := genContent(r.Pick([]int{0, 1, 5}), r.Intn(1000), sz)
+		fr := realFrame(content, wopts{bs: bs, cc: 1, bc: r.Intn(2), conc: 1, leg: leg})
+		if leg == 1 && r.Intn(4) != 0 {
+			fr = append(fr, le32b(uint32(sz))...) // kernel flavour
+		}
+		return saveBlob("reuse", fr), sz
+	}
+	for i := 0; i < k; i++ {
+		bigBs := r.Pick([]int{1 << 20, 4 << 20, 262144})
+		a, alen := mk(r.Pick([]int{250000, 300000, 700000}), bigBs, 0)
+		b, blen := mk(r.Pick([]int{1000, 70000, 140000}), 65536, 0)
+		l, llen := mk(r.Pick([]int{1, 1000, 70000}), 65536, 1)
+		conc := r.Pick([]int{1, 1, 2, 4})
+		part := r.Pick([]int{1, 100, 70000, 200000, alen - 1})
+		// partly consumed block, then a frame with smaller blocks
+		fmt.Fprintf(w, "R %d %s 0 -1 0 r:%d R:%s r:%d r:%d r:5 s\n", conc, a, part, b, r.Pick([]int{10, 4096, blen + 10}), blen+10)
+		fmt.Fprintf(w, "R %d %s 0 -1 0 r:%d R:%s wt:-1 r:5\n", conc, b, r.Pick([]int{1, 30000}), a)
+		// a legacy frame (mostly with the kernel trailer) after some other stream
+		fmt.Fprintf(w, "R 1 %s 0 -1 0 r:%d r:9 R:%s r:%d r:9 r:9\n", b, blen+10, l, llen+10)
+		fmt.Fprintf(w, "R %d %s %d -1 0 r:%d R:%s wt:-1 r:9 R:%s r:%d r:7\n", r.Pick([]int{1, 1, 2}), a, r.Pick([]int{0, 7}), part, l, l, llen+10)
+		fmt.Fprintf(w, "R 1 %s 0 -1 0 wt:-1 r:9 R:%s wt:-1\n", l, l)
+		// WriteTo fails on its destination with blocks in flight, then the Reader is reused
+		fmt.Fprintf(w, "R %d %s 0 -1 0 wt:%d R:%s wt:-1 r:5\n", r.Pick([]int{2, 4, 8}), a, r.Intn(3), b)
+		fmt.Fprintf(w, "R %d %s 0 -1 0 wt:%d R:%s r:%d r:5\n", r.Pick([]int{1, 2, 4}), b, r.Intn(2), a, alen+10)
 	}
 }
 
@@ -508,6 +664,16 @@ func genFRHostile(w *bufio.Writer, thorough bool, r *Rng) {
 			fmt.Fprintf(w, "R 1 x%s 0 -1 0 wt:-1 X:badmagic\n", hx(b))
 		}
 	}
+	for _, m := range magicWords(r) {
+		b := append(le32b(m), le32b(3)...)
+		b = append(b, 1, 2, 3)
+		b = append(b, valid...)
+		if m >= 0x184D2A50 && m <= 0x184D2A5F {
+			fmt.Fprintf(w, "R %d x%s 0 -1 0 wt:-1 X:eof E:x%s\n", r.Pick([]int{1, 2}), hx(b), hx([]byte("skipped ok")))
+		} else if m != 0x184D2204 && m != 0x184C2102 {
+			fmt.Fprintf(w, "R %d x%s 0 -1 0 r:100 X:badmagic\n", r.Pick([]int{1, 2}), hx(b))
+		}
+	}
 	for _, m := range []uint32{0x184D2A4F, 0x184D2A50, 0x184D2A51, 0x184D2A5E, 0x184D2A5F, 0x184D2A60, 0x184D2A00, 0x184D2AFF, 0x184D2203, 0x184D2205, 0x184C2101, 0x184C2103} {
 		for _, skip := range []uint32{0, 3, 100, 0xFFFFFFFF} {
 			b := append(le32b(m), le32b(skip)...)
@@ -551,6 +717,8 @@ func genFRHostile(w *bufio.Writer, thorough bool, r *Rng) {
 	}
 	fmt.Fprintf(w, "R 1 %s 0 -1 0 wt:-1\n", saveBlob("emptyrep", rep.Bytes()))
 	fmt.Fprintf(w, "R 4 %s 0 -1 0 wt:-1\n", saveBlob("emptyrep", rep.Bytes()))
+	// a Reader that meets hostile input after it was used for something else
+	reuseLines(w, r, 3)
 }
 
 func genFRFail(w *bufio.Writer, thorough bool, r *Rng) {
@@ -618,6 +786,20 @@ func genConc(w *bufio.Writer, thorough bool, r *Rng) {
 			fail = r.Intn(20)
 		}
 		fmt.Fprintf(w, "W %d %s\n", fail, strings.Join(ops, " "))
+	}
+	// reader side: WriteTo fails on its destination while blocks are in flight; the Reader is reused
+	for i := 0; i < n/6+4; i++ {
+		nb := 6 + r.Intn(10)
+		c1 := genContent(r.Pick([]int{0, 1, 5}), r.Intn(1000), nb*65536-r.Intn(3000))
+		c2 := genContent(r.Pick([]int{0, 1, 5}), r.Intn(1000), (2+r.Intn(6))*65536+r.Intn(3000))
+		f1, _ := buildFrame(c1, frameOpts{bsCode: 4, blockSize: 65536, bc: r.Bool(), cc: true, size: -1}, r)
+		f2, _ := buildFrame(c2, frameOpts{bsCode: 4, blockSize: 65536, bc: r.Bool(), cc: true, size: -1}, r)
+		conc := r.Pick([]int{2, 3, 4, 8})
+		tail := "wt:-1"
+		if r.Bool() {
+			tail = fmt.Sprintf("r:%d r:%d r:9", len(c2), len(c2))
+		}
+		fmt.Fprintf(w, "R %d %s 0 -1 0 wt:%d z:%d R:%s %s E:%s\n", conc, saveBlob("cf", f1), r.Intn(4), r.Pick([]int{0, 0, 20}), saveBlob("cf", f2), tail, saveBlob("cc", c2))
 	}
 	// reader side: many-block frames, valid and with one corrupted block, slow consumers
 	for i := 0; i < n/2; i++ {
